@@ -746,3 +746,71 @@ def r11_str_len(text, *idents):
         text, k = re.subn(r'(?<![A-Za-z0-9_.])' + re.escape(s_) + r'\.is_empty\(\)', 'vt_str_is_empty(%s)' % s_, text)
         n += k
     return text, n
+
+
+def _split_top(s, sep=','):
+    parts, cur, d = [], '', 0
+    for ch in s:
+        if ch in '([{':
+            d += 1
+        elif ch in ')]}':
+            d -= 1
+        if ch == sep and d == 0:
+            parts.append(cur)
+            cur = ''
+        else:
+            cur += ch
+    parts.append(cur)
+    return parts
+
+
+@rule('R20')
+def r20_fold(text, acc_type=None):
+    """desugaring of Iterator::fold (definition: acc = f(acc, item) for every item in order):
+       A.iter().zip(B.iter()).fold(INIT, |ACC, (P, T)| EXPR)            (tail expression, Copy elements)
+           -> { let mut vt_acc = INIT; for vt_i in 0..vt_min(A.len(), B.len()) { let ACC = vt_acc; let (P, T) = (A[vt_i], B[vt_i]); vt_acc = EXPR; } vt_acc }
+       let PAT = X.into_iter().fold(INIT, |ACC, ITEM| { STMTS; RESULT });
+           -> let mut vt_acc = INIT; for ITEM in X { let ACC = vt_acc; STMTS; vt_acc = RESULT; } let PAT = vt_acc;
+    optional argument: the accumulator type Rust infers (written out so that specification text may mention vt_acc early)"""
+    n = 0
+    # form A
+    m = re.search(r'(%s)\.iter\(\)\s*\.zip\((%s)\.iter\(\)\)\s*\.fold\(' % (IDENT, IDENT), text)
+    if m:
+        o = m.end() - 1
+        c = _balanced(text, o)
+        args = _split_top(text[o + 1:c])
+        if len(args) >= 2:
+            init = args[0].strip()
+            clo = ','.join(args[1:]).strip()
+            mm = re.match(r'\|(.*?), \((%s), (%s)\)\| (.*)$' % (IDENT, IDENT), clo, re.S)
+            if mm:
+                acc, p, t, expr = mm.group(1).strip(), mm.group(2), mm.group(3), mm.group(4).strip()
+                a, b = m.group(1), m.group(2)
+                ty = (': ' + acc_type) if acc_type else ''
+                new = ('{ let mut vt_acc%s = %s; for vt_i in 0..vt_min(%s.len(), %s.len()) { let %s = vt_acc; let (%s, %s) = (%s[vt_i], %s[vt_i]); vt_acc = %s; } vt_acc }'
+                       % (ty, init, a, b, acc, p, t, a, b, expr))
+                text = text[:m.start()] + new + text[c + 1:]
+                n += 1
+    # form B
+    m = re.search(r'([ \t]*)let (\([^=]*?\)|%s) =\s*([A-Za-z_][A-Za-z0-9_\.]*)\s*\.into_iter\(\)\s*\.fold\(' % IDENT, text)
+    if m:
+        ind, pat, x = m.group(1), m.group(2), m.group(3)
+        o = m.end() - 1
+        c = _balanced(text, o)
+        rest = text[c + 1:]
+        if rest.lstrip().startswith(';'):
+            args = _split_top(text[o + 1:c])
+            init = args[0].strip()
+            clo = ','.join(args[1:]).strip()
+            mm = re.match(r'\|(\([^|]*?\)|%s), (\([^|]*?\)|%s)\| \{(.*)\}$' % (IDENT, IDENT), clo, re.S)
+            if mm:
+                acc, item, body = mm.group(1), mm.group(2), mm.group(3)
+                stmts = _split_top(body, ';')
+                result = stmts[-1].strip()
+                pre = ';'.join(stmts[:-1]).strip()
+                ty = (': ' + acc_type) if acc_type else ''
+                new = ('%slet mut vt_acc%s = %s;\n%sfor %s in %s {\n%s    let %s = vt_acc;\n%s    %s;\n%s    vt_acc = %s;\n%s}\n%slet %s = vt_acc'
+                       % (ind, ty, init, ind, item, x, ind, acc, ind, pre, ind, result, ind, ind, pat))
+                text = text[:m.start()] + new + rest
+                n += 1
+    return text, n
